@@ -243,7 +243,7 @@ func (w *linuxWriter) writeCombinedFile(id oid.ID, p string, data []byte) error 
 		return err
 	}
 	err = sb.write(id, p, data)
-	if err == nil && sb.cnt >= w.combinedCountLimit || sb.size >= w.combinedSizeLimit {
+	if err == nil && (sb.cnt >= w.combinedCountLimit || sb.size >= w.combinedSizeLimit) {
 		sb.intSync()
 	}
 	sb.lock.Unlock()
